@@ -11,6 +11,7 @@ mod c08;
 mod c09;
 mod c12;
 mod c14;
+mod c16;
 mod classify;
 mod engine;
 mod json;
@@ -67,6 +68,7 @@ fn main() {
         "C09" => dispatch(&c09::C09, mode, &rest),
         "C12" => dispatch(&c12::C12, mode, &rest),
         "C14" => dispatch(&c14::C14, mode, &rest),
+        "C16" => dispatch(&c16::C16, mode, &rest),
         _ => {
             eprintln!("unknown property {id}");
             2
